@@ -48,9 +48,48 @@ Definition judge_int (outs : list (outc (Z * list Z))) (nwords : Z) (v count : Z
 Definition icase (t : fty) (m : sampler Z) (words : list Z) (v count : Z) : Z :=
   judge_int (interpI PREC (fprec t) (ceta t) (m words) FORKS) (Z.of_nat (length words)) v count.
 
+(* the same verdicts, plus 4 * (decision signature of the first reproducing path): coverage measurement only *)
+Definition first_sig (codes : list (Z * Z)) : Z :=
+  match find (fun cs => Z.eqb (fst cs) 0) codes with Some (_, s) => s | None => 0 end.
+Definition ccaseS (t : fty) (m : sampler expr) (words : list Z) (rm re count : Z) : Z :=
+  let outs := interpS PREC (fprec t) (ceta t) (m words) FORKS 0 in
+  let p := fprec t in let eta := ceta t in
+  let nwords := Z.of_nat (length words) in
+  let chk (o : outc (expr * list Z)) : Z :=
+    match o with
+    | OVal (e, rest) =>
+      if (nwords - Z.of_nat (length rest) =? count) then
+        let i := evalI PREC p eta true e in
+        if I.bounded i then (if inside PREC i rm re then 0 else 1) else 2
+      else 1
+    | OFail _ => 1
+    | OAmb => 2
+    end in
+  let cs := map (fun os => (chk (fst os), snd os)) outs in
+  judge_real t (map fst outs) nwords rm re count + 4 * first_sig cs.
+Definition icaseS (t : fty) (m : sampler Z) (words : list Z) (v count : Z) : Z :=
+  let outs := interpS PREC (fprec t) (ceta t) (m words) FORKS 0 in
+  let nwords := Z.of_nat (length words) in
+  let chk (o : outc (Z * list Z)) : Z :=
+    match o with
+    | OVal (x, rest) => if (nwords - Z.of_nat (length rest) =? count) && (x =? v) then 0 else 1
+    | OFail _ => 1
+    | OAmb => 2
+    end in
+  let cs := map (fun os => (chk (fst os), snd os)) outs in
+  judge_int (map fst outs) nwords v count + 4 * first_sig cs.
+
 (* diagnostics: the enclosures of all explored paths *)
 Definition cshow (t : fty) (m : sampler expr) (words : list Z) : list (option (I.type * Z)) :=
   map (fun o => match o with
                 | OVal (e, rest) => Some (evalI PREC (fprec t) (feta t) true e, Z.of_nat (length words - length rest))
                 | _ => None end)
       (interpI PREC (fprec t) (feta t) (m words) FORKS).
+
+(* the verdict part of ccaseS / icaseS is ccase / icase *)
+Lemma ccaseS_verdict t m words rm re count :
+  exists s, ccaseS t m words rm re count = ccase t m words rm re count + 4 * s.
+Proof. unfold ccaseS, ccase. rewrite interpS_fst. eexists. reflexivity. Qed.
+Lemma icaseS_verdict t m words v count :
+  exists s, icaseS t m words v count = icase t m words v count + 4 * s.
+Proof. unfold icaseS, icase. rewrite interpS_fst. eexists. reflexivity. Qed.
